@@ -340,7 +340,7 @@ type vpRunner struct {
 	hdr         vpOp
 }
 
-const vpWatchdog = 500 * time.Millisecond
+const vpWatchdog = 1500 * time.Millisecond
 
 func vpGoID() string {
 	buf := make([]byte, 64)
